@@ -28,6 +28,11 @@ func main() {
 	devnull, _ := os.OpenFile(os.DevNull, os.O_WRONLY, 0)
 	os.Stdout = devnull
 
+	plotDir = *out + ".plots"
+	if *engine == "plot" {
+		os.MkdirAll(plotDir, 0o755)
+		defer os.RemoveAll(plotDir)
+	}
 	root := NewRng(*seed)
 	run := func(i int) {
 		r := root.Fork(i)
@@ -35,6 +40,13 @@ func main() {
 		for _, line := range genCase(*engine, *mode, *tier, r, id, i) {
 			w.WriteString(line)
 			w.WriteByte('\n')
+			if len(line) > 7 && line[len(line)-6:] == "R hang" {
+				// a call that never returns keeps its goroutine: stop here, the verdict is already decided
+				w.Flush()
+				f.Close()
+				os.RemoveAll(plotDir)
+				os.Exit(0)
+			}
 		}
 	}
 	if *only >= 0 {
@@ -78,6 +90,8 @@ func genCase(engine, mode, tier string, r *Rng, id string, i int) []string {
 		return []string{genQid(r, i, mode).Line(id, "QID")}
 	case "sqlr":
 		return []string{genSqlr(r).Line(id, "SQLR")}
+	case "plot":
+		return []string{genPlot(r).Line(id, "PLOT")}
 	case "grp":
 		return []string{genGrp(r, tier).Line(id, "GRP")}
 	}
